@@ -49,6 +49,12 @@ func c06Gen(tier string, seed int64) []fw.Case {
 		cs = append(cs, fw.Mk(fmt.Sprintf("parsers-%d", i), c06Params{Mode: "parsers", N: nrand * 50}))
 	}
 	for i := 0; i < 8; i++ {
+		cs = append(cs, fw.Mk(fmt.Sprintf("pending-%d", i), c06Params{Mode: "pending", N: nrand / 2}))
+	}
+	for i := 0; i < 4; i++ {
+		cs = append(cs, fw.Mk(fmt.Sprintf("suback-codes-%d", i), c06Params{Mode: "subackcodes", N: nrand / 20, Part: i}))
+	}
+	for i := 0; i < 8; i++ {
 		cs = append(cs, fw.Mk(fmt.Sprintf("preconnack-%d/8", i), c06Params{Mode: "preconnack", Part: i, Of: 8, N: nrand / 4}))
 	}
 	return cs
@@ -430,6 +436,82 @@ func c06Run(c fw.Case, env *fw.Env) fw.Result {
 		return true
 	}
 	switch p.Mode {
+	case "pending":
+		// hostile acknowledgements that MATCH requests in flight: right type and identifier, wrong shape
+		rng := env.Rng(c)
+		for i := 0; i < p.N; i++ {
+			sig, det, trc, shape := c06Pending(rng)
+			r.Evals++
+			if sig == "inconclusive" {
+				r.Counters["inconclusive_runs"]++
+				if r.Counters["inconclusive_runs"] > 2 {
+					r.Verdict = fw.Inconclusive
+					r.Detail = det
+					return r
+				}
+				continue
+			}
+			if sig != "" {
+				r.Verdict = fw.Violated
+				r.Sig = sig
+				r.Detail = det
+				r.Trace = trc
+				return r
+			}
+			r.Counters["pending_calls_answered_with_hostile_acks"]++
+			r.NT = append(r.NT, fw.Hash("pending", shape))
+			if r.Sample == nil {
+				r.Sample = map[string]interface{}{"mode": "pending", "hostile_ack": shape}
+			}
+		}
+		return r
+	case "subackcodes":
+		// failure and reserved SUBACK return codes, then reconnects without session: the re-subscription built from
+		// what the client remembered must not bring the process down
+		rng := env.Rng(c)
+		wl := []string{"subs1", "subs3", "subs5", "subs6", "mixed", "outage2", "q2sub"}
+		for i := 0; i < p.N; i++ {
+			w := wl[(i+p.Part)%len(wl)]
+			rp := retryParams{W: w, Cfg: scen.BrokerCfg{Method: "A", Session: "lose", Grant: "hostile"}, Always: i%3 == 0, Chunk: []int{0, 1, 3}[i%3], Client: []string{"", "retry"}[i%2], Mode: "random", N: 1}
+			for _, sc := range rp.scenarios(rng) {
+				sc := sc
+				fmt.Printf("## suback-codes workload=%s faults=%v\n", w, sc.Faults)
+				run := scen.Exec(&sc)
+				r.Evals++
+				if run.Inconcl != "" {
+					r.Counters["inconclusive_runs"]++
+					continue
+				}
+				a := scen.Analyse(run)
+				for _, f := range a.Hygiene() {
+					if f.Sig == "protocol-error" {
+						continue
+					}
+					r.Verdict = fw.Violated
+					r.Sig = "malformed-write-after-hostile-suback"
+					r.Detail = f.Sig + ": " + f.Detail + fmt.Sprintf("\nworkload=%s faults=%v", w, sc.Faults)
+					r.Trace = a.Tail(80)
+					return r
+				}
+				n := 0
+				for _, e := range a.Ev {
+					if e.Kind == memnet.KSend && e.Pkt != nil && e.Pkt.Type == mqttref.SUBACK {
+						for _, code := range e.Pkt.Codes {
+							if code > 2 {
+								n++
+							}
+						}
+					}
+				}
+				r.Counters["failure_or_reserved_suback_codes_sent"] += n
+				r.Counters["connections_after_hostile_suback"] += a.Connections()
+				if n > 0 && a.Connections() >= 2 {
+					r.NT = append(r.NT, fw.Hash("subackcodes", w, a.FaultShape(), i, p.Part))
+				}
+			}
+		}
+		r.Sample = map[string]interface{}{"mode": "subackcodes", "workloads": wl}
+		return r
 	case "one":
 		run(*p.One)
 	case "structural":
@@ -644,4 +726,116 @@ func init() {
 			return 15 * time.Minute
 		},
 	})
+}
+
+// c06Pending: calls of every kind are waiting; the peer answers one of them with an acknowledgement of the right
+// type and identifier but a hostile shape (SUBACK with too many / too few / no return codes or reserved codes,
+// fixed-size acknowledgements with trailing bytes or reserved flags). Whatever the client makes of it, the process
+// survives, the calls return once the connection is closed, and well-formed oddities (surplus codes) do not index
+// out of the request.
+func c06Pending(rng *rand.Rand) (sig, detail string, trace []string, shape string) {
+	tr := memnet.NewTrace()
+	peer := &scen.Script{Tr: tr, AutoConnack: true, AutoPing: true}
+	cli, conn := scen.NewBase(tr, peer)
+	conn.Chunk = []int{0, 1, 3}[rng.Intn(3)]
+	if err := scen.ConnectBase(cli); err != nil {
+		return "inconclusive", err.Error(), nil, ""
+	}
+	defer cli.Close()
+	ctx, cancel := context.WithTimeout(context.Background(), 3*scen.Watchdog)
+	defer cancel()
+	nf := 1 + rng.Intn(4)
+	done := make(chan string, 8)
+	start := func(name string, fn func() error) {
+		go func() {
+			cs := tr.Call(name, "")
+			err := fn()
+			tr.Ret(cs, name, "", err)
+			done <- name
+		}()
+	}
+	start("Subscribe", func() error {
+		var req []mqtt.Subscription
+		for j := 0; j < nf; j++ {
+			req = append(req, mqtt.Subscription{Topic: fmt.Sprintf("c6/%d", j), QoS: mqtt.QoS(j % 3)})
+		}
+		_, err := cli.Subscribe(ctx, req...)
+		return err
+	})
+	start("Unsubscribe", func() error { return cli.Unsubscribe(ctx, "c6/u") })
+	start("Publish-q1", func() error {
+		return cli.Publish(ctx, &mqtt.Message{Topic: "c6/p1", QoS: mqtt.QoS1, Payload: []byte("x")})
+	})
+	start("Publish-q2", func() error {
+		return cli.Publish(ctx, &mqtt.Message{Topic: "c6/p2", QoS: mqtt.QoS2, Payload: []byte("x")})
+	})
+	in, ok := peer.WaitIn(scen.Watchdog, 4, func(p *mqttref.Packet) bool {
+		return p.Type == mqttref.PUBLISH || p.Type == mqttref.SUBSCRIBE || p.Type == mqttref.UNSUBSCRIBE
+	})
+	if !ok {
+		return "inconclusive", "requests not seen", tr.Dump(30), ""
+	}
+	ids := map[int]uint16{}
+	for _, ip := range in {
+		t := ip.P.Type
+		if t == mqttref.PUBLISH && ip.P.QoS == 2 {
+			t = 100
+		}
+		ids[t] = ip.P.ID
+	}
+	idb := func(id uint16) []byte { return []byte{byte(id >> 8), byte(id)} }
+	var raw []byte
+	switch k := rng.Intn(6); k {
+	case 0, 1, 2: // SUBACK for the pending Subscribe: any number of codes, any values
+		n := rng.Intn(nf + 5)
+		if k == 0 {
+			n = nf + 1 + rng.Intn(3) // surplus codes
+		}
+		body := idb(ids[mqttref.SUBSCRIBE])
+		for j := 0; j < n; j++ {
+			body = append(body, []byte{0, 1, 2, 0x80, 3, 0x7f, 0xff}[rng.Intn(7)])
+		}
+		raw = mqttref.EncRaw(byte(mqttref.SUBACK<<4), body)
+		shape = fmt.Sprintf("SUBACK %d codes for %d filters", n, nf)
+	case 3: // UNSUBACK / PUBACK with trailing bytes or reserved flags
+		t, id := mqttref.UNSUBACK, ids[mqttref.UNSUBSCRIBE]
+		if rng.Intn(2) == 0 {
+			t, id = mqttref.PUBACK, ids[mqttref.PUBLISH]
+		}
+		body := idb(id)
+		for j := rng.Intn(4); j > 0; j-- {
+			body = append(body, byte(rng.Intn(256)))
+		}
+		fl := byte(rng.Intn(16))
+		raw = mqttref.EncRaw(byte(t<<4)|fl, body)
+		shape = fmt.Sprintf("%s flags=%x body=%d", mqttref.TypeName(t), fl, len(body))
+	case 4: // PUBREC with trailing bytes, then PUBCOMP likewise
+		body := append(idb(ids[100]), make([]byte, rng.Intn(3))...)
+		raw = mqttref.EncRaw(byte(mqttref.PUBREC<<4), body)
+		body2 := append(idb(ids[100]), make([]byte, rng.Intn(3))...)
+		raw = append(raw, mqttref.EncRaw(byte(mqttref.PUBCOMP<<4)|byte(rng.Intn(2)), body2)...)
+		shape = fmt.Sprintf("PUBREC body=%d + PUBCOMP body=%d", len(body), len(body2))
+	case 5: // acknowledgement body cut short: identifier incomplete
+		t := []int{mqttref.SUBACK, mqttref.UNSUBACK, mqttref.PUBACK, mqttref.PUBREC}[rng.Intn(4)]
+		raw = mqttref.EncRaw(byte(t<<4), idb(ids[mqttref.SUBSCRIBE])[:rng.Intn(2)])
+		shape = fmt.Sprintf("%s with %d-byte body", mqttref.TypeName(t), len(raw)-2)
+	}
+	fmt.Printf("## pending hostile-ack %s raw=%x\n", shape, raw)
+	conn.Send(raw, "hostile acknowledgement for a pending request")
+	// a barrier Ping shows whether the link is still up; either way nothing may hang once it is closed
+	bctx, bcancel := context.WithTimeout(context.Background(), scen.Watchdog)
+	cli.Ping(bctx)
+	bcancel()
+	cli.Close()
+	for i := 0; i < 4; i++ {
+		select {
+		case <-done:
+		case <-time.After(scen.Watchdog):
+			if scen.CertifyStuck(tr, conn) {
+				return "call-hangs-after-hostile-ack", fmt.Sprintf("after %s and a local Close a pending call never returned", shape), tr.Dump(60), shape
+			}
+			return "inconclusive", "pending calls not returned within the watchdog", tr.Dump(30), shape
+		}
+	}
+	return "", "", nil, shape
 }
